@@ -226,8 +226,8 @@ class FB:
         self.nb = 0
         self.scopes = [list(args)]
         self.cur = self.new_block(entry=True)
-        self.allocas = []  # (ptr name, elem T, count, base align) visible in current scope chain
         self.alloca_scopes = [[]]
+        self.accs = [None]  # running checksum (an i64 value) per dominance scope: keeps intermediate values observable
 
     # ---- plumbing
     def v(self):
@@ -247,10 +247,28 @@ class FB:
     def push(self):
         self.scopes.append([])
         self.alloca_scopes.append([])
+        self.accs.append(self.accs[-1])
 
     def pop(self):
         self.scopes.pop()
         self.alloca_scopes.pop()
+        self.accs.pop()
+
+    def foldable(self, t):
+        return (isinstance(t, IntT) and t.w <= 128) or (isinstance(t, FloatT) and t.w in (32, 64)) or \
+            (isinstance(t, VecT) and t.e.bits >= 8 and t.bits <= 256)
+
+    def fold(self, vals):
+        """acc = acc (xor|add) value-as-i64 for each (name, type)."""
+        for n, t in vals:
+            if not self.foldable(t):
+                continue
+            v = self.to_type(n, t, I64)
+            if self.accs[-1] is None:
+                self.accs[-1] = v
+            else:
+                self.accs[-1] = self.raw_bin(self.rng.choice(["xor", "add", "sub"]), I64, self.accs[-1], v, ())
+                self.scopes[-1].pop()
 
     def avail(self, pred):
         return [(n, t) for sc in self.scopes for (n, t) in sc if pred(t)]
@@ -960,7 +978,7 @@ def inline_asm(self):
                          {"opc": "call", "asm": True})
     a, b = self.pick(t), self.pick(t)
     return self.emit("asm", t, [a, b], {"kind": "add"},
-                     f'llvm.inline_asm {se}"mov $1, $0\\0Aadd $2, $0", "=&r,r,r" {a}, {b} : ({t.mlir}, {t.mlir}) -> {t.mlir}',
+                     f'llvm.inline_asm {se}"mov $1, $0\\0Aadd $2, $0", "=&r,r,r,~{{flags}}" {a}, {b} : ({t.mlir}, {t.mlir}) -> {t.mlir}',
                      {"opc": "call", "asm": True})
 
 
@@ -1082,6 +1100,7 @@ def if_else(self, depth):
     self.cur = merge
     for n, t in merge.args:
         self.add(n, t)
+    self.fold(merge.args)
 
 
 @_fb_method
@@ -1123,6 +1142,7 @@ def loop(self, depth):
         self.cur = exit_
         for nme, t in exit_.args:
             self.add(nme, t)
+        self.fold(list(header.args) + list(exit_.args))
     else:  # do-while: the body block is its own predecessor when no nested control flow is generated
         one_more = self.raw_bin("add", it, n, one, ())  # trip count 1..4
         body = self.new_block([(self.v(), it)] + [(self.v(), t) for t in cts])
@@ -1147,6 +1167,7 @@ def loop(self, depth):
         self.cur = exit_
         for nme, t in exit_.args:
             self.add(nme, t)
+        self.fold(list(body.args) + list(exit_.args) + [(i2, it)])
 
 
 @_fb_method
@@ -1189,7 +1210,10 @@ def stmts(self, n, depth):
         elif depth < mg.max_depth and r < mg.p_if + mg.p_loop + mg.p_exit:
             self.early_exit(depth)
         else:
+            before = len(self.scopes[-1])
             self.simple()
+            if rng.random() < 0.3 and len(self.scopes[-1]) > before:
+                self.fold([self.scopes[-1][-1]])
 
 
 @_fb_method
@@ -1198,6 +1222,10 @@ def to_type(self, n, st, rt):
     rng = self.rng
     if st == rt:
         return n
+    if isinstance(st, VecT):
+        it = IntT(st.bits)
+        i = self.cast("bitcast", n, st, it)
+        return self.to_type(i, it, rt)
     if isinstance(st, FloatT):
         if isinstance(rt, FloatT) and st.w < rt.w and rng.random() < 0.6:
             return self.cast("fpext", n, st, rt)
@@ -1249,6 +1277,8 @@ def finish(self):
         return self.ret(self.const(rt))
     k = rng.randint(1, min(3, len(recent)))
     chosen = rng.sample(recent, k)
+    if self.accs[-1] is not None:
+        chosen.append((self.accs[-1], I64))
     acc_t = rt if isinstance(rt, IntT) else IntT(rt.w)
     acc = None
     for n, st in chosen:
@@ -1335,7 +1365,7 @@ class MG:
             elif r < 0.8:
                 et = rng.choice([I8, I16, I32, I64] + (FLOATS if self.flt else []))
                 n = rng.choice([2, 3, 4, 8])
-                vals = tuple(rand_int(rng, et.w) if isinstance(et, IntT) else rand_float_bits(rng, et.w) for _ in range(n))
+                vals = tuple(rand_int(rng, et.w) if isinstance(et, IntT) else rand_finite_float_bits(rng, et.w) for _ in range(n))
                 body = ", ".join(str(x) if isinstance(et, IntT) else float_lit(x, et.w) for x in vals)
                 g = GlobalDef(name, ArrT(n, et), vals, const, linkage, align, f"dense<[{body}]> : tensor<{n}x{et.mlir}>")
             elif r < 0.9:
@@ -1367,6 +1397,10 @@ class MG:
             args, ret = self.rand_sig(entry)
             name = f"f{i}" if rng.random() < 0.85 else rng.choice(["fn.with.dots", "has space", "q\"uote", "back\\slash", "λ", "0digit", "$dollar"]) + str(i)
             cconv = rng.choice(CCONVS[1:]) if (self.calls and rng.random() < 0.06) else "ccc"
+            if cconv == "coldcc" and not (ret is None or isinstance(ret, IntT)):
+                # LLVM's x86-64 coldcc treats xmm0 as callee-saved and restores it over a floating-point /
+                # vector return value (an LLVM code generator defect, reproduced without xDSL): not an oracle
+                cconv = "fastcc"
             linkage = rng.choice(["", "", "internal", "private"]) if not entry else ""
             fb = FB(self, name, [(f"%a{k}", t) for k, t in enumerate(args)], ret, cconv, linkage)
             self.mod.funcs.append(fb.f)
